@@ -34,6 +34,7 @@ class Prop(BaseProp):
     exec_modules = ["Exec.C08"]
     exec_import = "From BHW Require Import Lib.Base Exec.Common Exec.C08.\nFrom Coq Require Import String.\nOpen Scope string_scope."
     shard = 20
+    second_pass = False          # fresh entropy differs between runs by design
     rule = ("Fresh: BaseWallet.new_wallet for the five word counts and mnemonic_from_entropy_bits for the five sizes (and illegal ones) with "
             "random._urandom / os.urandom wrapped from outside: request sizes and answered bytes logged, incl. answers chosen by the driver "
             "(all-zero, all-ones, top bit only, leading zero bytes); the sentence must decode (Spec, in Coq) to exactly the answered bytes. "
